@@ -70,6 +70,62 @@ Definition default_value (d : dflt) (sofar : list value) : value :=
 Fixpoint chain_has (i g : N) (c : list (N * N)) : bool :=
   match c with [] => false | (i', g') :: t => ((i =? i') && (g =? g')) || chain_has i g t end.
 
+(** * the struct loops of the derive macros, parameterised by the field reader / writer *)
+Definition TypeKey : bytes := [84; 121; 112; 101].
+
+(* pdf_derive: impl_object_for_struct — the `let #name = …;` sequence of from_dict *)
+Fixpoint read_fields (rd : ty -> prim -> tres value) (fs : list field) (d : dict) (acc : list value) : tres value :=
+  match fs with
+  | [] => TOk (VStruct (rev acc))
+  | fd :: rest =>
+    if f_skip fd then read_fields rd rest d (VUnit :: acc)
+    else if f_other fd then read_fields rd rest d (VDict d :: acc)
+    else
+      let (po, d') := dremove (f_key fd) d in
+      tdo v <- (match po with
+                | Some q => map_err (EFromPrim (f_name fd)) (rd (f_ty fd) q)
+                | None =>
+                  match f_default fd with
+                  | DNone => map_err (fun _ => EMissing (f_name fd)) (rd (f_ty fd) PNull)
+                  | dv => TOk (default_value dv (rev acc))
+                  end
+                end);
+      read_fields rd rest d' (v :: acc)
+  end.
+
+(* the type and key checks at the head of from_dict *)
+Definition read_checks (s : schema) (d : dict) : tres unit :=
+  tdo _ <- (if s_tmode s =? 0 then TOk tt else expect d TypeKey (s_type s) (s_tmode s =? 2));
+  expect_all d (s_checks s).
+
+(* pdf_derive: impl_objectwrite_for_struct — `let mut dict = self.#other.clone()` *)
+Fixpoint other_of (fs : list field) (vs : list value) : dict :=
+  match fs, vs with
+  | fd :: fr, x :: vr => if f_other fd then match x with VDict d => d | _ => [] end else other_of fr vr
+  | _, _ => []
+  end.
+Definition ins_name (d : dict) (kv : bytes * bytes) : dict := dinsert (fst kv) (PName (snd kv)) d.
+(* … then `dict.insert("Type", …)` and the checks *)
+Definition base_of (s : schema) (vs : list value) : dict :=
+  let base0 := other_of (s_fields s) vs in
+  let base1 := if s_tmode s =? 0 then base0 else dinsert TypeKey (PName (s_type s)) base0 in
+  fold_left ins_name (s_checks s) base1.
+
+(* … then one `dict.insert(key, val)` per field whose value is not Null (pure part: `indirect` only keeps references) *)
+Fixpoint write_fields (wr : ty -> value -> tres prim) (fs : list field) (vs : list value) (d : dict) : tres prim :=
+  match fs, vs with
+  | [], [] => TOk (PDict d)
+  | fd :: fr, x :: vr =>
+    if f_skip fd || f_other fd then write_fields wr fr vr d
+    else
+      tdo val <- wr (f_ty fd) x;
+      if is_null val then write_fields wr fr vr d
+      else if f_indirect fd then
+        match val with PRef _ _ => write_fields wr fr vr (dinsert (f_key fd) val d) | _ => unmodelled end
+      else write_fields wr fr vr (dinsert (f_key fd) val d)
+  | _, _ => ill_typed
+  end.
+
 Section Interp.
 Variable SC : schemas.
 Variable H : hand.
@@ -172,26 +228,8 @@ Fixpoint read (fuel : nat) (chain : list (N * N)) (t : ty) (p : prim) {struct fu
       | Some s =>
         tdo d <- read_dict fuel p;
         (* pdf_derive: impl_object_for_struct — from_dict *)
-        tdo _ <- (if s_tmode s =? 0 then TOk tt else expect d [84; 121; 112; 101] (s_type s) (s_tmode s =? 2));
-        tdo _ <- expect_all d (s_checks s);
-        (fix fields (fs : list field) (d : dict) (acc : list value) : tres value :=
-           match fs with
-           | [] => TOk (VStruct (rev acc))
-           | fd :: rest =>
-             if f_skip fd then fields rest d (VUnit :: acc)
-             else if f_other fd then fields rest d (VDict d :: acc)
-             else
-               let (po, d') := dremove (f_key fd) d in
-               tdo v <- (match po with
-                         | Some q => map_err (EFromPrim (f_name fd)) (read f chain (f_ty fd) q)
-                         | None =>
-                           match f_default fd with
-                           | DNone => map_err (fun _ => EMissing (f_name fd)) (read f chain (f_ty fd) PNull)
-                           | dv => TOk (default_value dv (rev acc))
-                           end
-                         end);
-               fields rest d' (v :: acc)
-           end) (s_fields s) d []
+        tdo _ <- read_checks s d;
+        read_fields (read f chain) (s_fields s) d []
       end
     | TNameEnum i =>
       match get_nenum SC i with
@@ -261,27 +299,7 @@ Fixpoint write (fuel : nat) (t : ty) (v : value) {struct fuel} : tres prim :=
       | None => unmodelled
       | Some s =>
         (* pdf_derive: impl_objectwrite_for_struct — to_dict *)
-        let base0 : dict :=
-          (fix other (fs : list field) (vs : list value) : dict :=
-             match fs, vs with
-             | fd :: fr, x :: vr => if f_other fd then match x with VDict d => d | _ => [] end else other fr vr
-             | _, _ => []
-             end) (s_fields s) vs in
-        let base1 := if s_tmode s =? 0 then base0 else dinsert [84; 121; 112; 101] (PName (s_type s)) base0 in
-        let base2 := fold_left (fun d kv => dinsert (fst kv) (PName (snd kv)) d) (s_checks s) base1 in
-        (fix fields (fs : list field) (vs : list value) (d : dict) : tres prim :=
-           match fs, vs with
-           | [], [] => TOk (PDict d)
-           | fd :: fr, x :: vr =>
-             if f_skip fd || f_other fd then fields fr vr d
-             else
-               tdo val <- write f (f_ty fd) x;
-               if is_null val then fields fr vr d
-               else if f_indirect fd then
-                 match val with PRef _ _ => fields fr vr (dinsert (f_key fd) val d) | _ => unmodelled end
-               else fields fr vr (dinsert (f_key fd) val d)
-           | _, _ => ill_typed
-           end) (s_fields s) vs base2
+        write_fields (write f) (s_fields s) vs (base_of s vs)
       end
     | TNameEnum i, VEnum k =>
       match get_nenum SC i with
@@ -310,14 +328,6 @@ End Interp.
 Definition write_top (SC : schemas) (H : hand) (fuel : nat) (E : env) (i : N) (v : value) : tres (prim * env) :=
   match get_struct SC i, v with
   | Some s, VStruct vs =>
-    let base0 : dict :=
-      (fix other (fs : list field) (vs : list value) : dict :=
-         match fs, vs with
-         | fd :: fr, x :: vr => if f_other fd then match x with VDict d => d | _ => [] end else other fr vr
-         | _, _ => []
-         end) (s_fields s) vs in
-    let base1 := if s_tmode s =? 0 then base0 else dinsert [84; 121; 112; 101] (PName (s_type s)) base0 in
-    let base2 := fold_left (fun d kv => dinsert (fst kv) (PName (snd kv)) d) (s_checks s) base1 in
     (fix fields (fs : list field) (vs : list value) (d : dict) (E : env) : tres (prim * env) :=
        match fs, vs with
        | [], [] => TOk (PDict d, E)
@@ -333,7 +343,7 @@ Definition write_top (SC : schemas) (H : hand) (fuel : nat) (E : env) (i : N) (v
              end
            else fields fr vr (dinsert (f_key fd) val d) E
        | _, _ => ill_typed
-       end) (s_fields s) vs base2 E
+       end) (s_fields s) vs (base_of s vs) E
   | None, _ => unmodelled
   | _, _ => ill_typed
   end.
